@@ -91,3 +91,10 @@ mod tests {
         assert_ne!(inter, 0);
     }
 }
+
+#[cfg(feature = "verif")]
+impl Layout {
+    pub(super) fn verif_fields(&self) -> (i64, i64, u32) {
+        (self.min, self.max, self.scale)
+    }
+}
